@@ -269,13 +269,189 @@ pub fn check_files_and_seeds(n: usize, edges: u32, seeds: u64, dir: &Path, case:
     (out, runs, orders_seen.len())
 }
 
+/// Programs in which every tracking pass sees several items under the same key with
+/// asymmetric uses, so that an answer which depends on which item a hash map yields first
+/// changes with the hash seed.
+pub const PASS_CORPUS: &str = "pragma circom 2.0.0;
+
+template IsZero() {
+    signal input in;
+    signal output out;
+    signal inv;
+    inv <-- in != 0 ? 1 / in : 0;
+    out <== -in * inv + 1;
+    in * out === 0;
+}
+
+template Num2Bits(n) {
+    signal input in;
+    signal output out[n];
+    var lc = 0;
+    for (var i = 0; i < n; i++) {
+        out[i] <-- (in >> i) & 1;
+        out[i] * (out[i] - 1) === 0;
+        lc += out[i] * 2 ** i;
+    }
+    lc === in;
+}
+
+template LessThan(n) {
+    signal input in[2];
+    signal output out;
+    component n2b = Num2Bits(n + 1);
+    n2b.in <== in[0] + (1 << n) - in[1];
+    out <== 1 - n2b.out[n];
+}
+
+// Two IsZero components on the same divisor, only one of which forces it to be non-zero.
+template DivideA() {
+    signal input num;
+    signal input den;
+    signal output quot;
+    signal output flag;
+    component z1 = IsZero();
+    z1.in <== den;
+    z1.out === flag;
+    component z2 = IsZero();
+    z2.in <== den;
+    z2.out === 0;
+    quot <-- num / den;
+    quot * den === num;
+}
+
+// The same with the roles swapped, and a third component.
+template DivideB() {
+    signal input num;
+    signal input den;
+    signal output quot;
+    signal output flag;
+    component z1 = IsZero();
+    z1.in <== den;
+    z1.out === 0;
+    component z2 = IsZero();
+    z2.in <== den;
+    z2.out === flag;
+    component z3 = IsZero();
+    z3.in <== den;
+    quot <-- num / den;
+    quot * den === num;
+}
+
+// Two range checks of different width on each LessThan input.
+template CompareA() {
+    signal input a;
+    signal input b;
+    signal output ok;
+    component r1 = Num2Bits(300);
+    r1.in <== a;
+    component r2 = Num2Bits(32);
+    r2.in <== a;
+    component r3 = Num2Bits(32);
+    r3.in <== b;
+    component r4 = Num2Bits(300);
+    r4.in <== b;
+    component lt = LessThan(32);
+    lt.in[0] <== a;
+    lt.in[1] <== b;
+    ok <== lt.out;
+}
+
+// Several assignments and constraints of the same signals.
+template AssignA(n) {
+    signal input in;
+    signal output out;
+    signal mid;
+    signal other;
+    if (n > 0) {
+        mid <-- in * in * in;
+    } else {
+        mid <-- in \\ 2;
+    }
+    other <-- in * in * in;
+    mid === in * in;
+    mid * mid === in;
+    other === in;
+    out <== mid + other;
+    var x = 0;
+    if (n > 1) {
+        var x = 1;
+        x = x + n;
+    } else {
+        var x = 2;
+        x = x + 1;
+    }
+    component u1 = IsZero();
+    u1.in <== in;
+    component u2 = IsZero();
+    u2.in <== mid;
+    u2.out === 0;
+}
+";
+
+/// (f): the pass corpus under every hash seed, each seed twice.
+pub fn check_pass_corpus(seeds: u64, dir: &Path, case: &Value) -> (Vec<Violation>, u64) {
+    let mut out = Vec::new();
+    let _ = std::fs::create_dir_all(dir);
+    std::fs::write(dir.join("passes.circom"), PASS_CORPUS).expect("write");
+    let mut reference: Option<BTreeMap<String, usize>> = None;
+    let mut runs = 0;
+    for seed in 0..seeds {
+        let a = bin(dir, &["passes.circom".to_string()], seed);
+        let b = bin(dir, &["passes.circom".to_string()], seed);
+        runs += 2;
+        if a.stdout != b.stdout {
+            out.push(Violation {
+                signature: "MACHINERY-seed-not-owned".into(),
+                what: "two runs under the same hash seed differ".into(),
+                case: case.clone(),
+                expected: "byte-identical output".into(),
+                observed: crate::infra::truncate(&a.stdout, 300),
+            });
+            break;
+        }
+        let m = diag_multiset(&a);
+        match &reference {
+            None => {
+                if m.is_empty() {
+                    out.push(Violation {
+                        signature: "MACHINERY-pass-corpus-silent".into(),
+                        what: "the pass corpus produced no finding at all".into(),
+                        case: case.clone(),
+                        expected: "findings".into(),
+                        observed: crate::infra::truncate(&a.stdout, 300),
+                    });
+                    break;
+                }
+                reference = Some(m)
+            }
+            Some(refm) => {
+                if *refm != m {
+                    let d = diff(refm, &m);
+                    let mut c = case.clone();
+                    c["seed"] = json!(seed);
+                    out.push(Violation {
+                        signature: format!("hash-seed/pass-corpus/{}", first_id(&d)),
+                        what: format!("the findings for the pass corpus depend on the hash seed (seed {seed} vs seed 0)"),
+                        case: c,
+                        expected: "the same multiset of findings under every hash seed".into(),
+                        observed: d,
+                    });
+                    break;
+                }
+            }
+        }
+    }
+    (out, runs)
+}
+
 pub fn run(run: &Run) {
     run.set_rule(
         "projects = the C03 instantiation digraphs (templates carrying CFG-stage and pass-stage \
          findings + a function); (a) every analysis order on the real runner; (b) every order of the \
          named files (one definition per file); (c) every order of the definitions inside a file; \
          (d) every non-empty subset of 3 unrelated definitions added; (e) hash seeds 0..K through \
-         the getrandom shim, each seed twice; non-trivial = project with at least one edge",
+         the getrandom shim, each seed twice; (f) a corpus in which every tracking pass sees several \
+         items under one key with asymmetric uses, under 4K hash seeds; non-trivial = project with at least one edge",
     );
     let root = work_dir("c17");
     let seeds = run.tier.pick(16u64, 128u64);
@@ -331,6 +507,16 @@ pub fn run(run: &Run) {
         }
         let _ = std::fs::remove_dir_all(&dir);
     });
+    // (f)
+    {
+        let case = json!({"kind": "pass-corpus", "seeds": seeds * 4});
+        run.watch(&case);
+        let (vs, k) = check_pass_corpus(seeds * 4, &root.join("f"), &case);
+        run.idle();
+        run.eval(k);
+        run.nontrivial(1);
+        run.violations(vs);
+    }
     run.set_extra("max_distinct_analysis_orders_realised_by_seed_sweep", json!(max_orders.load(std::sync::atomic::Ordering::Relaxed)));
     let _ = std::fs::remove_dir_all(&root);
     run.assume("(e) enumerates hash seeds, not all iteration orders of all internal maps: owned and replayable, but not exhaustive; (a)-(d) are exhaustive within their bounds");
@@ -344,6 +530,7 @@ pub fn replay(case: &Value) -> Vec<Violation> {
         Some("analysis-order") | Some("order") => c03::check_shape(n, edges, &root, case).0,
         Some("definition-order") => check_definition_orders(n, edges, &root, case).0,
         Some("unrelated") => check_unrelated(n, edges, &root, case).0,
+        Some("pass-corpus") => check_pass_corpus(case["seeds"].as_u64().unwrap_or(64), &root, case).0,
         Some("files-seeds") => check_files_and_seeds(n, edges, case["seeds"].as_u64().unwrap_or(16), &root, case).0,
         _ => {
             let mut v = c03::check_shape(n, edges, &root.join("a"), case).0;
